@@ -2,6 +2,8 @@ package node
 
 import (
 	"fmt"
+	"math/big"
+	"reflect"
 
 	"github.com/freeconf/yang/fc"
 	"github.com/freeconf/yang/meta"
@@ -91,11 +93,7 @@ func (xp xpathImpl) resolveOperator(oper *xpath.Operator, ident string, s *Selec
 	if !isLeaf {
 		return false, fmt.Errorf("%w. '%s' is not a leaf and cannot be compared in xpath", fc.BadRequestError, ident)
 	}
-	b, err := NewValue(leaf.Type(), oper.Lhs)
-	if err != nil {
-		return false, err
-	}
-	s, err = s.Find(ident)
+	s, err := s.Find(ident)
 	if err != nil {
 		return false, err
 	}
@@ -109,6 +107,24 @@ func (xp xpathImpl) resolveOperator(oper *xpath.Operator, ident string, s *Selec
 	if a == nil {
 		// no value, nothing to compare: no comparison holds
 		return false, nil
+	}
+	if lit := exactNumber(oper.Lhs); lit != nil {
+		if n := exactNumber(a.Value()); n != nil {
+			// numbers are compared as numbers: the literal need not be a value of the leaf's
+			// type ("u8 < 300", "i32 > 1.5")
+			return holds(oper.Oper, n.Cmp(lit)), nil
+		}
+	}
+	if e, isEnum := a.(val.Enum); isEnum && (oper.Oper == "=" || oper.Oper == "!=") {
+		if name, isName := oper.Lhs.(string); isName {
+			// enums are compared by name, and a name the enumeration does not have is no
+			// reason to fail: the leaf just does not have it
+			return (e.Label == name) == (oper.Oper == "="), nil
+		}
+	}
+	b, err := NewValue(leaf.Type(), oper.Lhs)
+	if err != nil {
+		return false, err
 	}
 	switch oper.Oper {
 	case "=":
@@ -125,19 +141,46 @@ func (xp xpathImpl) resolveOperator(oper *xpath.Operator, ident string, s *Selec
 		if !aCanCompare || !bCanCompare {
 			return false, fmt.Errorf("%w. '%s' of type %s has no order to compare by in xpath", fc.BadRequestError, ident, a.Format())
 		}
-		c := ca.Compare(cb)
-		switch oper.Oper {
-		case "<":
-			return c < 0, nil
-		case ">":
-			return c > 0, nil
-		case ">=":
-			return c >= 0, nil
-		case "<=":
-			return c <= 0, nil
-		}
+		return holds(oper.Oper, ca.Compare(cb)), nil
 	}
-	panic("unrecognized operator: " + oper.Oper)
+}
+
+// holds tells whether the comparison oper is true of two operands that compare as c (<0, 0, >0)
+func holds(oper string, c int) bool {
+	switch oper {
+	case "=":
+		return c == 0
+	case "!=":
+		return c != 0
+	case "<":
+		return c < 0
+	case ">":
+		return c > 0
+	case ">=":
+		return c >= 0
+	case "<=":
+		return c <= 0
+	}
+	panic("unrecognized operator: " + oper)
+}
+
+// exactNumber is the number a literal or the Go value of a numeric leaf denotes, nil for
+// everything else
+func exactNumber(v interface{}) *big.Rat {
+	if n, isBig := v.(*big.Int); isBig {
+		return new(big.Rat).SetInt(n)
+	}
+	rv := reflect.ValueOf(v)
+	switch rv.Kind() {
+	case reflect.Int, reflect.Int8, reflect.Int16, reflect.Int32, reflect.Int64:
+		return new(big.Rat).SetInt64(rv.Int())
+	case reflect.Uint, reflect.Uint8, reflect.Uint16, reflect.Uint32, reflect.Uint64:
+		return new(big.Rat).SetUint64(rv.Uint())
+	case reflect.Float32, reflect.Float64:
+		// nil for what is not a finite number
+		return new(big.Rat).SetFloat64(rv.Float())
+	}
+	return nil
 }
 
 func (xp xpathImpl) resolveAbsolutePath(s *Selection) (*Selection, error) {
